@@ -142,7 +142,7 @@ impl Prop for C11 {
         .unwrap()
     }
     fn rule(&self) -> String {
-        "AL (as C09) x renderings (with/without %grmtools section of varying layout, 'n' vs \"n\", ; vs \"\" vs '', blank lines, // comment lines when allowed, tab/space separators, trailing spaces, %s/%x on one or several lines) x flag placement (section + from_str / new_with_options / new_with_options with a contradicting section). Oracle: iter_rules = the AL's rules in order (name, start-state ids, target id+op), name_span slices the user's text to the name, iter_start_states = INITIAL + declared states with kind and name spans; per rule 8 sample strings: match length of a one-rule projection of the source equals that of a regex built from the AST with the flags in force; invalid variants (1/5 of cases: duplicate rule name / state, broken quote, unknown state, garbage line, missing %%): every error span inside the text on char boundaries, duplicate errors slice to the duplicated name. Evaluation = one (spec,rendering). Non-trivial: a rule has a 'neither' escape, a start-state prefix, or a target operation, or the source has a header, or a multi-byte character occurs before a rule's name; distinct by hash(text).".into()
+        "AL (as C09) x renderings (with/without %grmtools section of varying layout, 'n' vs \"n\", ; vs \"\" vs '', blank lines, // comment lines when allowed, tab/space separators, trailing spaces, %s/%x on one or several lines) x flag placement (section + from_str / new_with_options / new_with_options with a contradicting section). Oracle: iter_rules = the AL's rules in order (name, start-state ids, target id+op), name_span slices the user's text to the name, iter_start_states = INITIAL + declared states with kind and name spans; per rule 8 sample strings: match length of a one-rule projection of the source (with an <INITIAL> prefix if the rule has a prefix) equals that of a regex built from the AST with the flags in force; invalid variants (1/5 of cases: duplicate rule name / state, broken quote, unknown state, garbage line, missing %%): every error span inside the text on char boundaries, duplicate errors slice to the duplicated name. Evaluation = one (spec,rendering). Non-trivial: a rule has a 'neither' escape, a start-state prefix, or a target operation, or the source has a header, or a multi-byte character occurs before a rule's name; distinct by hash(text).".into()
     }
     fn assumptions(&self) -> Vec<String> {
         vec!["re_str() text itself is not compared, only its denotation through lexing behaviour".into()]
@@ -423,7 +423,10 @@ impl Prop for C11 {
                 o.class("reference-regex-rejected");
                 continue;
             };
-            let proj = format!("{header}\n%%\n{} 'X'\n", ar.re.written());
+            // a rule written with a <..> prefix keeps one in its projection (the expression after a
+            // prefix is handled by code of its own)
+            let prefix = if ar.states.is_empty() { "" } else { "<INITIAL>" };
+            let proj = format!("{header}\n%%\n{prefix}{} 'X'\n", ar.re.written());
             let pd = catch(|| match case.flag_mode {
                 0 => LRNonStreamingLexerDef::<LT>::from_str(&proj),
                 _ => LRNonStreamingLexerDef::<LT>::new_with_options(&proj, lex_flags_of(&al.flags)),
